@@ -72,20 +72,35 @@ class saved_class_state:
 
 
 # ------------------------------------------------------------------------------------------
-def rand_spec(rng, tier, nens=None, data=None):
-    """{ensemble: {chain: {cfg: value}}} with a common spacing per ensemble."""
+def rand_spec(rng, tier, nens=None, data=None, loose=False):
+    """{ensemble: {chain: {cfg: value}}} with a common spacing per ensemble.
+    loose=True: irregular lists whose spacings are NOT all multiples of the smallest one (the library
+    accepts them and bins them on the grid of the smallest spacing; the reference estimator is not
+    defined there, but the invariance relations of C03 - relabelling, renaming, rescaling - are)."""
     nmax = 50 if tier == 'quick' else int(rng.choice([50, 120, 300]))
     nens = int(rng.choice([1, 1, 2])) if nens is None else nens
     spec = {}
     for e in rng.choice(gen.ENS_POOL, size=nens, replace=False):
         g = int(rng.choice([1, 1, 2, 3]))
+        if loose:
+            g = int(rng.choice([2, 3, 4]))
         tab = {}
         for r in gen.rand_reps(rng, 3, allow_bare=True):
             name = str(e) if r is None else '%s|%s' % (e, r)
             n = int(rng.integers(8, nmax + 1))
             kind = str(rng.choice(['contig', 'strided', 'gapped']))
             start = int(rng.integers(1, 60))
-            if kind == 'contig':
+            if loose:
+                # every replica has smallest spacing g (so the replicas are compatible) and some spacing g + 1 .. 2g + 1
+                steps = rng.choice([g, g, g + 1, 2 * g + 1, g + 2], size=n - 1).tolist()
+                steps[int(rng.integers(0, n - 1))] = g
+                steps[int(rng.integers(0, n - 1))] = g + 1
+                if g not in steps:
+                    steps[0] = g
+                idl = [start]
+                for st in steps:
+                    idl.append(idl[-1] + int(st))
+            elif kind == 'contig':
                 idl = list(range(start, start + n * g, g))
             elif kind == 'strided':
                 k = int(rng.choice([2, 4]))
@@ -193,7 +208,10 @@ def compare_results(ctx, r1, r2, mech, emap=None, factor=1.0, rtol=1e-8, o1=None
 
 # ------------------------------------------------------------------------------------------
 def case_pair(ctx, rng, rel):
-    spec = rand_spec(rng, ctx.tier)
+    loose = rel in ('affine', 'rename_ordered', 'rename_reordering', 'permute_args') and rng.random() < 0.3
+    spec = rand_spec(rng, ctx.tier, loose=loose)
+    if loose:
+        ctx.count('pairs_on_lists_without_common_spacing')
     kw = rand_params(rng)
     if rng.random() < 0.3:
         kw['fft'] = False
